@@ -15,9 +15,9 @@ from .. import tlc, tlaval, pipeline_common as pc
 
 CLAUSES = ['CreatedFirst', 'CreatedOnce', 'ClosedOnce', 'ClosedLast', 'FnAtMostOnce',
            'FnAfterCall', 'RetObjIffRet', 'ExcObjIffFault', 'DocStrMatch', 'LevelsFollow',
-           'SvcSubApp']
+           'SvcSubApp', 'NoEscape']
 M1_INV = ['CreatedFirst', 'CreatedOnce', 'ClosedOnce', 'ClosedLast', 'FnAtMostOnce', 'FnAfterCall',
-          'RetObjIffRet', 'ExcObjIffFault', 'DocStrMatch', 'LevelsFollow', 'CountersAgree']
+          'RetObjIffRet', 'ExcObjIffFault', 'DocStrMatch', 'LevelsFollow', 'CountersAgree', 'NoEscape']
 
 
 def replay_events_graph(ctx, maxops):
